@@ -13,7 +13,7 @@ def yields_for(tock):
 
 @st.composite
 def leaf(draw, tock, *, faults=False, members=False, depth=0, max_steps=6, forever_ok=True,
-         enter_ret=True, yields=None, npool=0, kinds=None, split_yields=False):
+         enter_ret=True, yields=None, npool=0, kinds=None, split_yields=False, group_ops=False):
     k = draw(st.sampled_from(kinds or ALL_KINDS))
     ys = yields if yields is not None else yields_for(tock)
     if split_yields:
@@ -48,6 +48,13 @@ def leaf(draw, tock, *, faults=False, members=False, depth=0, max_steps=6, forev
             if op == "extend" and npool:
                 tg = st.one_of(st.tuples(st.just("pool"), st.integers(0, npool - 1)), tg)
             targets = draw(st.lists(tg.map(list), min_size=1, max_size=3))
+            if group_ops and draw(st.integers(0, 2)) > 0:
+                # several live members of one host in one call, in an order of the caller's choosing (not enter order)
+                idx = draw(st.lists(st.integers(0, 7), min_size=2, max_size=4, unique=True))
+                targets = [["live", i] for i in idx]
+                if op == "extend" and npool:
+                    targets = [["pool", j] for j in draw(st.lists(st.integers(0, npool - 1), min_size=1, max_size=npool,
+                                                                  unique=True))]
             action = [op, up, targets]
         steps.append([action, draw(yv)])
     if k == "doer":
@@ -92,15 +99,15 @@ def has_unbounded(n):
 def program(draw, *, faults=False, members=False, maxdepth=2, max_leaves=6, limit="maybe",
             dd_tocks=(0.0,), always_ok=False, forever_ok=True, enter_ret=True, max_steps=6,
             start_tymes=(0.0, 0.0, 1.0, 10.5, 0.1), tocks=None, kinds=None, restrict_yields=None,
-            split_yields=False, dd_odds=2, force_always=False, prerun_ok=False):
+            split_yields=False, dd_odds=2, force_always=False, prerun_ok=False, group_ops=False, min_leaves=1):
     tock = draw(st.sampled_from(tocks or TOCKS))
     npool = draw(st.integers(1, 3)) if members else 0
     ys = None
     if restrict_yields is not None:
         ys = restrict_yields(tock)
     opts = dict(faults=faults, members=members, max_steps=max_steps, forever_ok=forever_ok,
-                enter_ret=enter_ret, yields=ys, npool=npool, kinds=kinds, split_yields=split_yields)
-    budget = [draw(st.integers(1, max_leaves))]
+                enter_ret=enter_ret, yields=ys, npool=npool, kinds=kinds, split_yields=split_yields, group_ops=group_ops)
+    budget = [draw(st.integers(min_leaves, max_leaves))]
     doers = []
     while budget[0] > 0 and len(doers) < 6:
         doers.append(draw(node(tock, 0, maxdepth, budget, opts, dd_tocks, always_ok, dd_odds, force_always)))
@@ -123,6 +130,8 @@ def program(draw, *, faults=False, members=False, maxdepth=2, max_leaves=6, limi
             # optionally the doer objects have been run before under another scheduler (re-use)
             "prerun": draw(st.sampled_from([None, None, None, {"tyme": 7.0, "limit": 2.5}, {"tyme": 0.5, "limit": 1.0}]))
             if prerun_ok else None,
+            # which run loop drives the program: the plain generator loop or the asyncio coroutine (same semantics, C30)
+            "mode": draw(st.sampled_from(["do", "do", "do", "ado"])),
             "doers": doers, "pool": pool}
 
 
@@ -140,3 +149,44 @@ def depth_of(nodes, d=0):
         if n["k"] == "dodoer":
             m = max(m, depth_of(n["kids"], d + 1))
     return m
+
+
+@st.composite
+def same_cycle_program(draw, dodoer_host=None):
+    """3-6 long-lived siblings under one host (the Doist, or a DoDoer(always=True, tock 0)); in one chosen cycle 1-3 of
+    them call extend / remove on that host, one after the other inside that cycle, with several live targets."""
+    tock = draw(st.sampled_from([1.0, 0.25, 0.125]))
+    n = draw(st.integers(3, 6))
+    npool = draw(st.integers(1, 3))
+    cyc = draw(st.integers(0, 2))
+    actors = draw(st.lists(st.integers(0, n - 1), min_size=1, max_size=3, unique=True))
+    acts = {}
+    for a in actors:
+        op = draw(st.sampled_from(["extend", "remove", "remove"]))
+        if op == "extend":
+            tg = [["pool", j] for j in draw(st.lists(st.integers(0, npool - 1), min_size=1, max_size=npool, unique=True))]
+            if draw(st.integers(0, 3)) == 0:
+                tg.append(["live", draw(st.integers(0, 7))])
+        else:
+            tg = [["live", i] for i in draw(st.lists(st.integers(0, n + npool - 1), min_size=1, max_size=3, unique=True))]
+            if draw(st.integers(0, 4)) == 0:
+                tg.append(["self"])
+        acts[a] = [op, 0, tg]
+    kids = []
+    for i in range(n):
+        k = draw(st.sampled_from(GEN_KINDS + ["doer"]))
+        y = draw(st.sampled_from([0, 0, 0.0, tock])) if k != "doer" else draw(st.sampled_from([0, 0.0, tock]))
+        steps = [[None, y] for _ in range(cyc)] + [[acts.get(i), y]] + [[None, y] for _ in range(draw(st.integers(0, 2)))]
+        # a second call by the same doer one or two cycles later
+        if i in acts and draw(st.integers(0, 2)) == 0:
+            steps.append([[draw(st.sampled_from(["extend", "remove"])), 0,
+                           [draw(st.sampled_from([["pool", 0], ["live", 0], ["live", 1], ["live", 2], ["self"]]))]], y])
+        end = ["forever"] if draw(st.integers(0, 3)) else ["ret", True]
+        kids.append({"k": k, "tock": y or 0.0, "enter": "ok", "steps": steps, "end": end})
+    pool = [{"k": draw(st.sampled_from(GEN_KINDS)), "tock": 0.0, "enter": "ok",
+             "steps": [[None, draw(st.sampled_from([0, 0, tock]))] for _ in range(draw(st.integers(1, 3)))],
+             "end": draw(st.sampled_from([["forever"], ["forever"], ["ret", True]]))} for _ in range(npool)]
+    dd = draw(st.booleans()) if dodoer_host is None else dodoer_host
+    doers = [{"k": "dodoer", "tock": 0.0, "always": True, "kids": kids}] if dd else kids
+    return {"tock": tock, "tyme": draw(st.sampled_from([0.0, 1.0, 10.5])), "limit": (cyc + 5) * tock,
+            "ctor_tyme": None, "prerun": None, "mode": draw(st.sampled_from(["do", "do", "ado"])), "doers": doers, "pool": pool}
